@@ -66,7 +66,9 @@ PointerSeq == << Ptr("p_int", FALSE, Sc("int")), Ptr("pc_int", TRUE, Sc("int")),
               Ptr("p_double", FALSE, Sc("double")), Ptr("pc_S16i", TRUE, St("S16i")),
               Ptr("p_S33", FALSE, St("S33")), Ptr("pp_int", FALSE, Ptr("p_int", FALSE, Sc("int"))),
               Ptr("pc_pc_char", TRUE, Ptr("pc_char", TRUE, Sc("char"))),
-              Ptr("p_td_int", FALSE, Td("td_int", Sc("int"), "")) >>
+              Ptr("p_td_int", FALSE, Td("td_int", Sc("int"), "")),
+              \* the const lives in the typedef: `typedef const int ro_int; ro_int *p` is a pointer to const
+              Ptr("p_ro_int", TRUE, Td("ro_int", Sc("int"), "")) >>
 Pointers == Range(PointerSeq)
 
 Arr(id, c, of, len) == [k |-> "arr", id |-> id, c |-> c, of |-> of, len |-> len]
